@@ -566,6 +566,8 @@ static int restore_interior_string (char **val, svalue_t * sv) {
               {
                 while ((c = *cp++) != '"')
                   {
+                    if (c == '\0') /* the text ends without the closing quote */
+                      return ROB_STRING_ERROR;
                     if (c == '\\')
                       {
                         if (!(*newp++ = *cp++))
@@ -1206,6 +1208,8 @@ int restore_string (char *val, svalue_t * sv) {
               {
                 while ((c = *cp++) != '"')
                   {
+                    if (c == '\0') /* the text ends without the closing quote */
+                      return ROB_STRING_ERROR;
                     if (c == '\\')
                       {
                         if (!(*newp++ = *cp++))
@@ -1633,6 +1637,8 @@ char* save_variable (svalue_t * var) {
 
   save_svalue_depth = 0;
   theSize = svalue_save_size (var);
+  if (theSize - 1 > (size_t) CONFIG_INT (__MAX_STRING_LENGTH__))
+    error ("*save_variable: the result would exceed the maximum string length.\n");
   new_str = new_string (theSize - 1, "save_variable");
   *new_str = '\0';
   p = new_str;
